@@ -12,6 +12,16 @@
 //!              clone of the store; everything is recorded for validation against
 //!              spec/MUPAbstract.tla.  The engine contains no oracle: it only records.
 //!
+//! mode `cm`  : the caller's side: a REAL `ChainMonitor` whose persister is the real
+//!              `MonitorUpdatingPersister` over the same recording store is given a real monitor
+//!              (watch_channel) and real `ChannelMonitorUpdate`s (update_channel) -- pre-close
+//!              updates, ChannelForceClosed, payment preimages, in any order a script asks for,
+//!              including pre-close updates after a block took the monitor on chain, which the
+//!              monitor refuses --, block connections, deferred completions
+//!              (channel_monitor_updated), clean-ups, archiving, crashes + restarts
+//!              (load_existing_monitor of what the real recovery returned).  Recording and crash
+//!              point recoveries as in mode `mup`.
+//!
 //! usage: kvstore --mode fs  --out TRACE --dir SCRATCH [--scripts FILE] [--random N] [--seed S] [--ops K]
 //!        kvstore --mode mup --out TRACE [--scripts FILE] [--histories H] [--random N] [--seed S]
 
@@ -770,6 +780,9 @@ enum Fault {
 struct StoreState {
 	base: BTreeMap<Key, Arc<Vec<u8>>>, // durable contents, lazily removed keys still included
 	pending: BTreeSet<Key>,            // lazily removed, not known to have landed
+	/// mode `cm`: the in-memory monitor as it was handed to the persister, per update id, as of
+	/// this point of the run (what a recovery here is compared with)
+	snaps: Arc<BTreeMap<u64, Arc<Vec<u8>>>>,
 }
 
 impl StoreState {
@@ -822,7 +835,11 @@ impl RecStore {
 	fn new(ids: Ids, seed: u64) -> RecStore {
 		RecStore {
 			inner: Mutex::new(RecInner {
-				st: StoreState { base: BTreeMap::new(), pending: BTreeSet::new() },
+				st: StoreState {
+					base: BTreeMap::new(),
+					pending: BTreeSet::new(),
+					snaps: Arc::new(BTreeMap::new()),
+				},
 				nmut: 0,
 				nread: 0,
 				faults: HashMap::new(),
@@ -875,7 +892,15 @@ impl RecStore {
 			},
 			"upd" => match ids.upd.get(&h256(buf)) {
 				Some(id) => (*id as i64, -1),
-				None => (-1, -1),
+				None => match catch_unwind(AssertUnwindSafe(|| {
+					<ChannelMonitorUpdate as lightning::util::ser::Readable>::read(&mut &buf[..]).ok()
+				}))
+				.ok()
+				.flatten()
+				{
+					Some(u) if u.update_id < 1_000_000 => (u.update_id as i64, -1),
+					_ => (-1, -1),
+				},
 			},
 			_ => (-1, -1),
 		}
@@ -1773,6 +1798,820 @@ fn mup_main(a: &Args) {
 	std::process::exit(0);
 }
 
+// ================================================================================================
+// part (c): the caller's side -- a real ChainMonitor driving the real MonitorUpdatingPersister
+// ================================================================================================
+
+/// What a 2-node network gave us for node 0's channel: a monitor with an outbound HTLC pending
+/// (so that a block far enough ahead takes it on chain), the pre-close updates that followed it,
+/// a ChannelForceClosed update and a post-close payment preimage update.
+struct CmHist {
+	keys: &'static TestKeysInterface,
+	fee: &'static TestFeeEstimator,
+	chan_id: lightning::ln::types::ChannelId,
+	name: MonitorName,
+	base_mon: Vec<u8>,
+	base_id: u64,
+	pre: Vec<Vec<u8>>,
+	fc: Option<Vec<u8>>,
+	pp: Option<Vec<u8>>,
+	hid: usize,
+	desc: Vec<String>,
+}
+
+fn upd_kind(u: &ChannelMonitorUpdate) -> &'static str {
+	use lightning::verif::monitor::{steps, StepView};
+	let st = steps(u);
+	if st.len() == 1 {
+		match st[0] {
+			StepView::ChannelForceClosed { .. } => return "fc",
+			StepView::PaymentPreimage { .. } => return "pp",
+			StepView::ReleasePaymentComplete => return "other",
+			_ => {},
+		}
+	}
+	if st.iter().any(|x| {
+		matches!(
+			x,
+			StepView::HolderCommitment { .. }
+				| StepView::CounterpartyCommitment { .. }
+				| StepView::CommitmentSecret { .. }
+		)
+	}) {
+		"pre"
+	} else {
+		"other"
+	}
+}
+
+fn read_upd(b: &[u8]) -> ChannelMonitorUpdate {
+	<ChannelMonitorUpdate as lightning::util::ser::Readable>::read(&mut &b[..]).unwrap()
+}
+
+fn gen_cm_history(seed: u64, hid: usize) -> Option<CmHist> {
+	let mut rng = StdRng::seed_from_u64(seed.wrapping_mul(1_000_033).wrapping_add(7 * hid as u64 + 1));
+	let chanmon_cfgs: &'static Vec<TestChanMonCfg> = Box::leak(Box::new(create_chanmon_cfgs(2)));
+	let caps: &'static Vec<Capture> = Box::leak(Box::new(vec![
+		Capture { calls: Mutex::new(Vec::new()) },
+		Capture { calls: Mutex::new(Vec::new()) },
+	]));
+	let mut node_cfgs = create_node_cfgs(2, chanmon_cfgs);
+	for i in 0..2 {
+		node_cfgs[i].chain_monitor = TestChainMonitor::new(
+			Some(&chanmon_cfgs[i].chain_source),
+			&chanmon_cfgs[i].tx_broadcaster,
+			&chanmon_cfgs[i].logger,
+			&chanmon_cfgs[i].fee_estimator,
+			&caps[i],
+			&chanmon_cfgs[i].keys_manager,
+		);
+	}
+	let node_cfgs: &'static Vec<NodeCfg<'static>> = Box::leak(Box::new(node_cfgs));
+	let chanmgrs = Box::leak(Box::new(create_node_chanmgrs(2, node_cfgs, &[None, None])));
+	let nodes = Box::leak(Box::new(create_network(2, node_cfgs, chanmgrs)));
+	let desc: Mutex<Vec<String>> = Mutex::new(Vec::new());
+	let base_idx: Mutex<Option<usize>> = Mutex::new(None);
+	let chan_id: Mutex<Option<lightning::ln::types::ChannelId>> = Mutex::new(None);
+	let _ = catch_unwind(AssertUnwindSafe(|| {
+		let chan = create_announced_chan_between_nodes_with_value(nodes, 0, 1, 1_000_000, 400_000_000);
+		*chan_id.lock().unwrap() = Some(chan.2);
+		if rng.gen_bool(0.5) {
+			send_payment(&nodes[0], &[&nodes[1]], rng.gen_range(1_000_000..4_000_000));
+		}
+		// stays pending: it is what takes node 0's monitor on chain when its expiry passes
+		let (_p_out, _h_out, _, _) = route_payment(&nodes[0], &[&nodes[1]], rng.gen_range(3_000_000..9_000_000));
+		// node 0 knows this one's preimage
+		let (p_in, _h_in, _, _) = route_payment(&nodes[1], &[&nodes[0]], rng.gen_range(1_000_000..2_000_000));
+		*base_idx.lock().unwrap() = Some(caps[0].calls.lock().unwrap().len());
+		desc.lock().unwrap().push("open; route0>1 held; route1>0 held; BASE".into());
+		let n = rng.gen_range(3..5);
+		for _ in 0..n {
+			let amt = rng.gen_range(1_000_000..3_000_000);
+			if rng.gen_bool(0.6) {
+				send_payment(&nodes[0], &[&nodes[1]], amt);
+				desc.lock().unwrap().push(format!("pay0>1:{}", amt));
+			} else {
+				send_payment(&nodes[1], &[&nodes[0]], amt);
+				desc.lock().unwrap().push(format!("pay1>0:{}", amt));
+			}
+		}
+		let peer = nodes[1].node.get_our_node_id();
+		let _ = nodes[0].node.force_close_broadcasting_latest_txn(&chan.2, &peer, "verif".to_owned());
+		desc.lock().unwrap().push("force_close0".into());
+		nodes[0].node.claim_funds(p_in);
+		desc.lock().unwrap().push("claim-after-close0".into());
+	}));
+	let c = match caps[0].calls.lock() {
+		Ok(c) => c.clone(),
+		Err(e) => e.into_inner().clone(),
+	};
+	let base_idx = base_idx.lock().map(|g| *g).unwrap_or(None)?;
+	let chan_id = chan_id.lock().map(|g| *g).unwrap_or(None)?;
+	if base_idx == 0 || base_idx > c.len() {
+		return None;
+	}
+	let base = &c[base_idx - 1];
+	let mut pre = Vec::new();
+	let mut fc = None;
+	let mut pp = None;
+	for cap in c[base_idx..].iter() {
+		if let Some(u) = &cap.upd {
+			match upd_kind(&read_upd(u)) {
+				"pre" if fc.is_none() => pre.push(u.clone()),
+				"fc" if fc.is_none() => fc = Some(u.clone()),
+				"pp" if fc.is_some() && pp.is_none() => pp = Some(u.clone()),
+				_ => {},
+			}
+		}
+	}
+	let desc = desc.lock().map(|d| d.clone()).unwrap_or_default();
+	// The monitor handed to the ChainMonitor under test is an EARLIER state of node 0's monitor, and
+	// TestChannelSigner shares its "already revoked" bookkeeping between all signers one
+	// TestKeysInterface derives: a second key manager with node 0's seed, bookkeeping off.
+	let mut km = TestKeysInterface::with_settings(&[0u8; 32], bitcoin::Network::Testnet, false, None);
+	km.disable_all_state_policy_checks = true;
+	let km: &'static TestKeysInterface = Box::leak(Box::new(km));
+	Some(CmHist {
+		keys: km,
+		fee: &chanmon_cfgs[0].fee_estimator,
+		chan_id,
+		name: base.name,
+		base_mon: base.mon.clone(),
+		base_id: base.mon_id,
+		pre,
+		fc,
+		pp,
+		hid,
+		desc,
+	})
+}
+
+fn mk_mup2<'a>(
+	store: &'a dyn KVStoreSync, maxp: u64, keys: &'a TestKeysInterface, bc: &'a TestBroadcaster,
+	fee: &'a TestFeeEstimator,
+) -> Mup<'a> {
+	MonitorUpdatingPersister::new(store, &QUIET, maxp, keys, keys, bc, fee)
+}
+
+fn far_broadcaster() -> TestBroadcaster {
+	// its "chain" is far ahead: time-locked claims of a monitor that went on chain may be broadcast
+	let g = bitcoin::constants::genesis_block(bitcoin::Network::Testnet);
+	TestBroadcaster::with_blocks(Arc::new(Mutex::new(vec![(g, 2_000_000)])))
+}
+
+/// The persister the ChainMonitor sees: the real MonitorUpdatingPersister, with the calls, what
+/// it returned and the monitor it was handed recorded; on request it tells the ChainMonitor
+/// InProgress for a persistence that did complete (the completion is delivered later through
+/// channel_monitor_updated).
+struct Tap<'a> {
+	inner: &'a Mup<'a>,
+	store: &'a RecStore,
+	defer_next: Mutex<bool>,
+	deferred: Mutex<Vec<u64>>,
+	calls: Mutex<usize>,
+	fulls: Mutex<usize>,
+	saw_error: Mutex<bool>,
+}
+unsafe impl<'a> Sync for Tap<'a> {}
+unsafe impl<'a> Send for Tap<'a> {}
+
+impl<'a> Tap<'a> {
+	fn before(&self, kind: &str, id: u64, monitor: &ChannelMonitor<TestChannelSigner>) {
+		*self.calls.lock().unwrap() += 1;
+		if kind == "full" {
+			*self.fulls.lock().unwrap() += 1;
+		}
+		let mid = monitor.get_latest_update_id();
+		let bytes = Arc::new(monitor.encode());
+		let mut g = self.store.inner.lock().unwrap();
+		let mut m = (*g.st.snaps).clone();
+		m.insert(mid, bytes);
+		g.st.snaps = Arc::new(m);
+		g.items.push(Item::Ev(json!({"ev":"call","kind":kind,"id":id,"lazy":false})));
+	}
+	fn after(&self, kind: &str, id: u64, st: ChannelMonitorUpdateStatus) -> ChannelMonitorUpdateStatus {
+		if st == ChannelMonitorUpdateStatus::UnrecoverableError {
+			*self.saw_error.lock().unwrap() = true;
+		}
+		if self.store.inner.lock().unwrap().dead {
+			return st; // the node died during the call: nothing was reported to anyone
+		}
+		let mut out = st;
+		let mut d = self.defer_next.lock().unwrap();
+		if *d && st == ChannelMonitorUpdateStatus::Completed && (kind == "new" || kind == "upd") {
+			out = ChannelMonitorUpdateStatus::InProgress;
+			self.deferred.lock().unwrap().push(id);
+		}
+		*d = false;
+		self.store.push(json!({"ev":"ret","kind":kind,"id":id,"status":status_str(out)}));
+		out
+	}
+}
+
+impl<'a> Persist<TestChannelSigner> for Tap<'a> {
+	fn persist_new_channel(
+		&self, name: MonitorName, monitor: &ChannelMonitor<TestChannelSigner>,
+	) -> ChannelMonitorUpdateStatus {
+		let id = monitor.get_latest_update_id();
+		self.before("new", id, monitor);
+		let st = Persist::<TestChannelSigner>::persist_new_channel(self.inner, name, monitor);
+		self.after("new", id, st)
+	}
+	fn update_persisted_channel(
+		&self, name: MonitorName, update: Option<&ChannelMonitorUpdate>,
+		monitor: &ChannelMonitor<TestChannelSigner>,
+	) -> ChannelMonitorUpdateStatus {
+		let (kind, id) = match update {
+			Some(u) => ("upd", u.update_id),
+			None => ("full", monitor.get_latest_update_id()),
+		};
+		self.before(kind, id, monitor);
+		let st = Persist::<TestChannelSigner>::update_persisted_channel(self.inner, name, update, monitor);
+		self.after(kind, id, st)
+	}
+	fn archive_persisted_channel(&self, name: MonitorName) {
+		Persist::<TestChannelSigner>::archive_persisted_channel(self.inner, name)
+	}
+}
+
+#[derive(Clone, Debug)]
+enum COp {
+	New(bool),              // watch_channel (defer: the persister's completion is reported later)
+	Upd(&'static str, bool), // update_channel with the next update of that kind (defer)
+	Close,                  // a block far enough ahead: the pending HTLC timed out, the monitor goes on chain
+	Sync,                   // blocks until the ChainMonitor persists the monitor from chain sync
+	Cleanup(bool),
+	Archive,
+	Complete,               // channel_monitor_updated for the oldest deferred completion
+	Crash(usize, usize, bool), // the NEXT call dies after its k-th mutating store op (0 = now); landing mask; monitor key landed
+}
+
+struct CmRun {
+	maxp: u64,
+	ops: Vec<COp>,
+	faults: HashMap<usize, Fault>,
+	label: Value,
+}
+
+#[derive(Default)]
+struct CmStats {
+	calls: usize,
+	updates: usize,
+	refused_mult: usize,
+	refused_nonmult: usize,
+	refused_seen_as_full: usize,
+	closes: usize,
+	archives: usize,
+	deferred: usize,
+	completed: usize,
+	restarts: usize,
+	unexpected_panics: usize,
+}
+
+fn advance_cm(
+	c: &CmHist, bc: &TestBroadcaster, blocks: &[(Block, u32)], mon: &ChannelMonitor<TestChannelSigner>,
+	height: u32,
+) {
+	for (b, ht) in blocks.iter() {
+		if *ht > mon.current_best_block().height && *ht <= height {
+			let txdata: Vec<(usize, &Transaction)> = b.txdata.iter().enumerate().collect();
+			mon.block_connected(&b.header, &txdata, *ht, bc, c.fee, &QUIET);
+		}
+	}
+}
+
+fn recover_cm(
+	c: &CmHist, st: &StoreState, map: &BTreeMap<Key, Arc<Vec<u8>>>, maxp: u64, seed: u64,
+	blocks: &[(Block, u32)], cache: &mut HashMap<[u8; 32], ChannelMonitor<TestChannelSigner>>,
+	stats: &mut RecoverStats,
+) -> Value {
+	stats.recoveries += 1;
+	let cs = CrashStore {
+		map: map.clone(),
+		fail_at: None,
+		nread: Mutex::new(0),
+		rng: Mutex::new(StdRng::seed_from_u64(seed)),
+	};
+	let bc = far_broadcaster();
+	let r = catch_unwind(AssertUnwindSafe(|| {
+		let p = mk_mup2(&cs, maxp, c.keys, &bc, c.fee);
+		p.read_all_channel_monitors_with_updates()
+	}));
+	match r {
+		Err(_) => {
+			stats.panics += 1;
+			json!({"kind":"panic","rid":-1,"eq":false,"rf":false,"n":0})
+		},
+		Ok(Err(_)) => json!({"kind":"err","rid":-1,"eq":false,"rf":false,"n":0}),
+		Ok(Ok(v)) if v.is_empty() => json!({"kind":"none","rid":-1,"eq":false,"rf":false,"n":0}),
+		Ok(Ok(v)) => {
+			let n = v.len();
+			let mon = &v[0].1;
+			let rid = mon.get_latest_update_id();
+			// library `==` against the in-memory monitor as it was last handed to the persister at
+			// that update id, both at the same chain tip
+			let eq = match st.snaps.get(&rid) {
+				None => false,
+				Some(bytes) => {
+					let hk = h256(bytes);
+					if !cache.contains_key(&hk) {
+						if let Some(m) = read_mon(bytes, c.keys) {
+							cache.insert(hk, m);
+						}
+					}
+					match cache.get(&hk) {
+						None => false,
+						Some(target) => catch_unwind(AssertUnwindSafe(|| {
+							let th = target.current_best_block().height;
+							advance_cm(c, &bc, blocks, mon, th);
+							mon == target
+						}))
+						.unwrap_or(false),
+					}
+				},
+			};
+			json!({"kind":"ok","rid":rid,"eq":eq,"rf":false,"n":n})
+		},
+	}
+}
+
+fn cm_land(ids: &Ids, pend: &[Key], mask: usize, landmon: bool) -> Vec<bool> {
+	let mut ui = 0usize;
+	pend.iter()
+		.map(|k| match RecStore::classify(ids, k).0 {
+			"mon" => landmon,
+			_ => {
+				let b = mask >> (ui % 16) & 1 == 1;
+				ui += 1;
+				b
+			},
+		})
+		.collect()
+}
+
+fn run_cm(
+	c: &CmHist, run: usize, r: &CmRun, seed: u64, tw: &mut TraceWriter,
+	cache: &mut HashMap<[u8; 32], ChannelMonitor<TestChannelSigner>>, stats: &mut RecoverStats,
+	cs: &mut CmStats,
+) {
+	use lightning::chain::{Listen, Watch};
+	let mut rng = StdRng::seed_from_u64(seed);
+	let mut ids = Ids::default();
+	ids.mon_key = c.name.to_string();
+	ids.keys = Some(c.keys);
+	let store = RecStore::new(ids.clone(), seed ^ 0x55);
+	store.inner.lock().unwrap().faults = r.faults.clone();
+	let bc = far_broadcaster();
+	let mup = mk_mup2(&store, r.maxp, c.keys, &bc, c.fee);
+	let tap = Tap {
+		inner: &mup,
+		store: &store,
+		defer_next: Mutex::new(false),
+		deferred: Mutex::new(Vec::new()),
+		calls: Mutex::new(0),
+		fulls: Mutex::new(0),
+		saw_error: Mutex::new(false),
+	};
+	let chain_source = lightning::util::test_utils::TestChainSource::new(bitcoin::Network::Testnet);
+	let logger = lightning::util::test_utils::TestLogger::new();
+	let mk_cm = || TestChainMonitor::new(Some(&chain_source), &bc, &logger, c.fee, &tap, c.keys);
+
+	let mut blocks: Vec<(Block, u32)> = Vec::new();
+	let base_tip = read_mon(&c.base_mon, c.keys).map(|m| m.current_best_block().height).unwrap_or(0);
+	let mut tip = base_tip;
+	let mut kinds: Vec<&'static str> = Vec::new(); // kinds of the updates base_id+1.. of the live monitor
+	let mut exists = false;
+	let mut gone = false;
+	let mut halted = false;
+	let mut closed = false; // a closing block is part of the chain
+	let mut pending_crash: Option<(usize, usize, bool)> = None;
+	let mut unexpected = false;
+
+	let mut cm = Some(mk_cm());
+	let todo = r.ops.clone();
+	let mut oi = 0usize;
+	while oi < todo.len() && !unexpected {
+		let op = todo[oi].clone();
+		oi += 1;
+		if halted && !matches!(op, COp::Crash(_, _, _)) {
+			break;
+		}
+		let mut crash_now: Option<(usize, bool)> = None;
+		if let COp::Crash(k, mask, lm) = op {
+			if k == 0 || halted {
+				crash_now = Some((mask, lm));
+			} else {
+				pending_crash = Some((k, mask, lm));
+				continue;
+			}
+		} else {
+			if let Some((k, _, _)) = pending_crash {
+				let mut g = store.inner.lock().unwrap();
+				g.dead_after = Some(g.nmut + k);
+			}
+			*tap.saw_error.lock().unwrap() = false;
+			let off = kinds.iter().any(|k| *k == "fc");
+			let live = cm.as_ref().unwrap();
+			let res = catch_unwind(AssertUnwindSafe(|| match op {
+				COp::New(defer) => {
+					if exists || gone {
+						return;
+					}
+					if let Some(m) = read_mon(&c.base_mon, c.keys) {
+						*tap.defer_next.lock().unwrap() = defer;
+						let _ = live.chain_monitor.watch_channel(c.chan_id, m);
+						*tap.defer_next.lock().unwrap() = false;
+						exists = true;
+					}
+				},
+				COp::Upd(kind, defer) => {
+					if !exists || gone {
+						return;
+					}
+					let npre = kinds.iter().filter(|k| **k == "pre").count();
+					let bytes = match kind {
+						"pre" if !off && npre < c.pre.len() => &c.pre[npre],
+						"fc" if !off => match &c.fc {
+							Some(b) => b,
+							None => return,
+						},
+						"pp" => match &c.pp {
+							Some(b) => b,
+							None => return,
+						},
+						_ => return,
+					};
+					let mut u = read_upd(bytes);
+					let cur = live.chain_monitor.get_monitor(c.chan_id).unwrap().get_latest_update_id();
+					u.update_id = cur + 1;
+					cs.updates += 1;
+					if kind == "pre" && closed {
+						if r.maxp != 0 && u.update_id % r.maxp == 0 {
+							cs.refused_mult += 1;
+						} else {
+							cs.refused_nonmult += 1;
+						}
+					}
+					kinds.push(kind);
+					let f0 = *tap.fulls.lock().unwrap();
+					*tap.defer_next.lock().unwrap() = defer;
+					let _ = live.chain_monitor.update_channel(c.chan_id, &u);
+					*tap.defer_next.lock().unwrap() = false;
+					if *tap.fulls.lock().unwrap() > f0 {
+						cs.refused_seen_as_full += 1;
+					}
+				},
+				COp::Close => {
+					if !exists || gone || closed {
+						return;
+					}
+					tip += 200;
+					let b = create_dummy_block(bitcoin::BlockHash::all_zeros(), tip, Vec::new());
+					blocks.push((b.clone(), tip));
+					closed = true;
+					cs.closes += 1;
+					live.chain_monitor.block_connected(&b, tip);
+				},
+				COp::Sync => {
+					if !exists || gone {
+						return;
+					}
+					let c0 = *tap.calls.lock().unwrap();
+					for _ in 0..6 {
+						tip += 1;
+						let b = create_dummy_block(bitcoin::BlockHash::all_zeros(), tip, Vec::new());
+						blocks.push((b.clone(), tip));
+						live.chain_monitor.block_connected(&b, tip);
+						if *tap.calls.lock().unwrap() > c0 {
+							break;
+						}
+					}
+				},
+				COp::Cleanup(lazy) => {
+					*tap.calls.lock().unwrap() += 1;
+					store.push(json!({"ev":"call","kind":"cleanup","id":0,"lazy":lazy}));
+					let res = mup.cleanup_stale_updates(lazy);
+					if !store.inner.lock().unwrap().dead {
+						store.push(json!({"ev":"ret","kind":"cleanup","id":0,
+							"status": if res.is_ok() {"completed"} else {"error"}}));
+					}
+				},
+				COp::Archive => {
+					// ChainMonitor::archive_fully_resolved_channel_monitors, for a monitor it found
+					// fully resolved: archive_persisted_channel, then the monitor is forgotten
+					if !exists || gone || !(closed || off) {
+						return;
+					}
+					*tap.calls.lock().unwrap() += 1;
+					cs.archives += 1;
+					store.push(json!({"ev":"archive"}));
+					store.push(json!({"ev":"call","kind":"archive","id":0,"lazy":true}));
+					Persist::<TestChannelSigner>::archive_persisted_channel(&tap, c.name);
+					if !store.inner.lock().unwrap().dead {
+						store.push(json!({"ev":"ret","kind":"archive","id":0,"status":"completed"}));
+					}
+					let _ = live.chain_monitor.remove_monitor(&c.chan_id);
+					gone = true;
+				},
+				COp::Complete => {
+					if !exists || gone {
+						return;
+					}
+					let id = {
+						let mut d = tap.deferred.lock().unwrap();
+						if d.is_empty() {
+							return;
+						}
+						d.remove(0)
+					};
+					cs.completed += 1;
+					store.push(json!({"ev":"complete","id":id}));
+					let _ = live.chain_monitor.channel_monitor_updated(c.chan_id, id);
+				},
+				COp::Crash(_, _, _) => {},
+			}));
+			let dead = store.inner.lock().unwrap().dead;
+			store.inner.lock().unwrap().dead_after = None;
+			if res.is_err() {
+				// the ChainMonitor panics when its persister returns UnrecoverableError: the node stops
+				if dead || *tap.saw_error.lock().unwrap() {
+					halted = true;
+				} else {
+					unexpected = true;
+				}
+			}
+			if let Some((_, mask, lm)) = pending_crash {
+				if dead {
+					crash_now = Some((mask, lm));
+				}
+				pending_crash = None;
+			}
+		}
+		if let Some((mask, lm)) = crash_now {
+			// ---- crash: un-landed lazy removals are lost; the restarted node recovers with the real
+			// recovery, hands the monitor to a fresh ChainMonitor and syncs it to the chain tip
+			cs.restarts += 1;
+			cm = None;
+			{
+				let mut g = store.inner.lock().unwrap();
+				let pend: Vec<Key> = g.st.pending.iter().cloned().collect();
+				let m = cm_land(&ids, &pend, mask, lm);
+				for (i, k) in pend.iter().enumerate() {
+					if m[i] {
+						g.st.base.remove(k);
+					}
+				}
+				g.st.pending.clear();
+				g.dead = false;
+				g.dead_after = None;
+				let (land, landmon) = land_ids(&ids, &pend, &m);
+				let st = g.st.clone();
+				g.items.push(Item::Mut(json!({"ev":"crash","land":land,"landmon":landmon}), st));
+			}
+			tap.deferred.lock().unwrap().clear();
+			*tap.defer_next.lock().unwrap() = false;
+			pending_crash = None;
+			let rec = catch_unwind(AssertUnwindSafe(|| mup.read_all_channel_monitors_with_updates()));
+			let mon = match rec {
+				Ok(Ok(mut v)) if v.len() == 1 => Some(v.remove(0).1),
+				Ok(Ok(v)) if v.is_empty() => None,
+				_ => {
+					store.push(json!({"ev":"restart","rid":-2}));
+					halted = true;
+					exists = false;
+					continue;
+				},
+			};
+			halted = false;
+			let fresh = mk_cm();
+			match mon {
+				None => {
+					store.push(json!({"ev":"restart","rid":-1}));
+					exists = false;
+					kinds.clear();
+					// an archived channel stays archived
+				},
+				Some(m) => {
+					let rid = m.get_latest_update_id();
+					store.push(json!({"ev":"restart","rid":rid}));
+					kinds.truncate((rid.saturating_sub(c.base_id)) as usize);
+					exists = true;
+					if gone {
+						// the removal of the archived monitor's key did not land: it is loaded again
+						gone = false;
+					}
+					let mtip = m.current_best_block().height;
+					let sync = catch_unwind(AssertUnwindSafe(|| {
+						let _ = fresh.chain_monitor.load_existing_monitor(c.chan_id, m);
+						for (b, ht) in blocks.iter() {
+							if *ht > mtip {
+								fresh.chain_monitor.block_connected(b, *ht);
+							}
+						}
+					}));
+					if sync.is_err() {
+						if store.inner.lock().unwrap().dead || *tap.saw_error.lock().unwrap() {
+							halted = true;
+						} else {
+							unexpected = true;
+						}
+					}
+				},
+			}
+			cm = Some(fresh);
+		}
+	}
+	cs.calls += *tap.calls.lock().unwrap();
+	if unexpected {
+		cs.unexpected_panics += 1;
+	}
+	drop(cm);
+
+	// ---- emit: events in order; after every mutating store operation the crash-point recoveries
+	let items = std::mem::take(&mut store.inner.lock().unwrap().items);
+	tw.emit(json!({"run":run,"ev":"reset","maxp":r.maxp,"hist":c.hid,"node":0,"nsnap":0,"label":r.label}));
+	let empty_st = StoreState {
+		base: BTreeMap::new(),
+		pending: BTreeSet::new(),
+		snaps: Arc::new(BTreeMap::new()),
+	};
+	let mut v = recover_cm(c, &empty_st, &empty_st.base, r.maxp, seed, &blocks, cache, stats);
+	v["run"] = json!(run);
+	v["ev"] = json!("rec");
+	v["land"] = json!([]);
+	v["landmon"] = json!(false);
+	tw.emit(v);
+	for it in items {
+		match it {
+			Item::Ev(mut v) => {
+				v["run"] = json!(run);
+				tw.emit(v);
+			},
+			Item::Mut(mut v, st) => {
+				v["run"] = json!(run);
+				tw.emit(v);
+				let pend: Vec<Key> = st.pending.iter().cloned().collect();
+				for (si, mask) in subsets(&pend, 16, &mut rng).iter().enumerate() {
+					let mut map = st.base.clone();
+					for (i, k) in pend.iter().enumerate() {
+						if mask[i] {
+							map.remove(k);
+						}
+					}
+					let (land, landmon) = land_ids(&ids, &pend, mask);
+					let mut v = recover_cm(c, &st, &map, r.maxp, seed ^ si as u64, &blocks, cache, stats);
+					v["run"] = json!(run);
+					v["ev"] = json!("rec");
+					v["land"] = json!(land);
+					v["landmon"] = json!(landmon);
+					tw.emit(v);
+				}
+			},
+		}
+	}
+	if unexpected {
+		tw.emit(json!({"run":run,"ev":"panic"}));
+	}
+	if cache.len() > 4000 {
+		cache.clear();
+	}
+}
+
+fn parse_cm_script(s: &Value) -> CmRun {
+	let mut ops = Vec::new();
+	for o in s["ops"].as_array().unwrap() {
+		let defer = o["defer"].as_bool().unwrap_or(false);
+		match o["op"].as_str().unwrap() {
+			"new" => ops.push(COp::New(defer)),
+			"upd" => ops.push(COp::Upd(
+				match o["kind"].as_str().unwrap_or("pre") {
+					"fc" => "fc",
+					"pp" => "pp",
+					_ => "pre",
+				},
+				defer,
+			)),
+			"close" => ops.push(COp::Close),
+			"sync" => ops.push(COp::Sync),
+			"cleanup" => ops.push(COp::Cleanup(o["lazy"].as_bool().unwrap_or(true))),
+			"archive" => ops.push(COp::Archive),
+			"complete" => ops.push(COp::Complete),
+			"crash" => ops.push(COp::Crash(
+				o["after"].as_u64().unwrap_or(0) as usize,
+				o["land"].as_u64().unwrap_or(0) as usize,
+				o["landmon"].as_bool().unwrap_or(false),
+			)),
+			_ => {},
+		}
+	}
+	let mut faults = HashMap::new();
+	if let Some(fs) = s["faults"].as_array() {
+		for f in fs {
+			let mode = if f["mode"] == "applied" { Fault::Applied } else { Fault::NoEffect };
+			faults.insert(f["n"].as_u64().unwrap() as usize, mode);
+		}
+	}
+	CmRun { maxp: s["maxp"].as_u64().unwrap(), ops, faults, label: json!({"script": s}) }
+}
+
+fn cm_main(a: &Args) {
+	let mut tw = TraceWriter::create(&a.out);
+	let scripts = read_scripts(&a.scripts);
+	let mut hists: Vec<CmHist> = Vec::new();
+	let mut gen_fail = 0usize;
+	for hid in 0..a.histories {
+		match catch_unwind(AssertUnwindSafe(|| gen_cm_history(a.seed, hid))) {
+			Ok(Some(h)) if h.pre.len() >= 6 => hists.push(h),
+			_ => gen_fail += 1,
+		}
+	}
+	if hists.is_empty() {
+		eprintln!("no history could be generated");
+		std::process::exit(3);
+	}
+	let mut stats = RecoverStats { recoveries: 0, panics: 0 };
+	let mut cs = CmStats::default();
+	let mut run = 0usize;
+	let mut rng = StdRng::seed_from_u64(a.seed ^ 0xC19C0DE);
+	let mut caches: Vec<HashMap<[u8; 32], ChannelMonitor<TestChannelSigner>>> =
+		hists.iter().map(|_| HashMap::new()).collect();
+	let hist_info: Vec<Value> = hists
+		.iter()
+		.map(|h| {
+			json!({"hist":h.hid,"base_id":h.base_id,"pre_updates":h.pre.len(),
+				"force_close_update":h.fc.is_some(),"preimage_update":h.pp.is_some(),"actions":h.desc})
+		})
+		.collect();
+
+	for (si, s) in scripts.iter().enumerate() {
+		run += 1;
+		let hi = si % hists.len();
+		let r = parse_cm_script(s);
+		run_cm(&hists[hi], run, &r, a.seed ^ run as u64, &mut tw, &mut caches[hi], &mut stats, &mut cs);
+	}
+
+	// ---- seeded runs: longer update sequences for more values of maximum_pending_updates
+	let maxps: [u64; 8] = [0, 1, 2, 3, 4, 5, 7, 11];
+	for ri in 0..a.random {
+		run += 1;
+		let hi = ri % hists.len();
+		let maxp = maxps[(ri / hists.len()) % maxps.len()];
+		let mut ops = vec![COp::New(rng.gen_bool(0.15))];
+		let nupd = rng.gen_range(3..9);
+		let close_at = rng.gen_range(0..nupd);
+		let mut faults = HashMap::new();
+		for i in 0..nupd {
+			if i == close_at {
+				ops.push(COp::Close);
+			}
+			if rng.gen_bool(0.10) {
+				ops.push(COp::Crash(rng.gen_range(0..3), rng.gen_range(0..65536), rng.gen_bool(0.5)));
+			}
+			let kind = match rng.gen_range(0..10) {
+				0 => "fc",
+				1..=2 => "pp",
+				_ => "pre",
+			};
+			ops.push(COp::Upd(kind, rng.gen_bool(0.15)));
+			if rng.gen_bool(0.15) {
+				ops.push(COp::Sync);
+			}
+			if rng.gen_bool(0.12) {
+				ops.push(COp::Cleanup(rng.gen_bool(0.5)));
+			}
+			if rng.gen_bool(0.15) {
+				ops.push(COp::Complete);
+			}
+		}
+		ops.push(COp::Crash(0, rng.gen_range(0..65536), false));
+		ops.push(COp::Upd("pp", false));
+		if rng.gen_bool(0.3) {
+			ops.push(COp::Archive);
+			ops.push(COp::Crash(0, 0, rng.gen_bool(0.5)));
+		}
+		if rng.gen_bool(0.25) {
+			let n = rng.gen_range(1..(2 * nupd + 2));
+			faults.insert(n, if rng.gen_bool(0.5) { Fault::NoEffect } else { Fault::Applied });
+		}
+		let label = json!({"random_index": ri, "maxp": maxp, "ops": format!("{:?}", ops),
+			"faults": format!("{:?}", faults)});
+		let r = CmRun { maxp, ops, faults, label };
+		run_cm(&hists[hi], run, &r, a.seed ^ (run as u64) << 8, &mut tw, &mut caches[hi], &mut stats, &mut cs);
+	}
+	tw.flush();
+	put_summary(
+		a,
+		json!({"runs":run,"persister_calls":cs.calls,"recoveries":stats.recoveries,
+			"recovery_panics":stats.panics,"histories":hist_info,"history_failures":gen_fail,
+			"events":tw.lines,"script_runs":scripts.len(),"updates":cs.updates,
+			"refused_at_multiple":cs.refused_mult,"refused_at_non_multiple":cs.refused_nonmult,
+			"refused_persisted_as_full_monitor":cs.refused_seen_as_full,
+			"closes":cs.closes,"archives":cs.archives,"completions":cs.completed,
+			"restarts":cs.restarts,"unexpected_panics":cs.unexpected_panics})
+	);
+	std::process::exit(0);
+}
+
 fn main() {
 	// keep panic messages of caught panics out of the way unless asked for
 	if std::env::var("VERIF_PANIC_MSG").is_err() {
@@ -1782,6 +2621,7 @@ fn main() {
 	match a.mode.as_str() {
 		"fs" => fs_main(&a),
 		"mup" => mup_main(&a),
+		"cm" => cm_main(&a),
 		x => panic!("unknown mode {}", x),
 	}
 }
